@@ -271,8 +271,8 @@ def steps(chk, P):
     w1 = ep.sym("cutoff") / (ep.sym("nr") - 1)
     w2 = ep.sym("cutoff_rho") / (ep.sym("nrho") - 1)
     chk.ob("C11.O5", "dr = cutoff/(nr-1)", ep.equal(dr, w1)[0],
-           site=P.cls("atsim.potentials.pair_tabulation", "PairTabulation_AbstractBase").lookup("dr").site(), found=dr, expect=w1,
+           site=P.cls("atsim.potentials.pair_tabulation", "PairTabulation_AbstractBase").site_of("dr"), found=dr, expect=w1,
            key="C11.O5|dr")
     chk.ob("C11.O5", "drho = cutoff_rho/(nrho-1)", ep.equal(drho, w2)[0],
-           site=P.cls("atsim.potentials.eam_tabulation", "_EAMTabulationAbstractbase").lookup("drho").site(), found=drho, expect=w2,
+           site=P.cls("atsim.potentials.eam_tabulation", "_EAMTabulationAbstractbase").site_of("drho"), found=drho, expect=w2,
            key="C11.O5|drho")
